@@ -35,6 +35,9 @@ def family(name, perm=None, irf="none", mc_order=None, ds_order=None, d2_perm=No
     md = {"megacomplex": {}, "dataset": {"d1": {"megacomplex": []}}}
     if irf != "none":
         md["irf"] = {"irf1": IRF if irf == "dispersed" else IRF_PLAIN}
+        if irf == "backsweep":  # the laser's previous pulse: a term per compartment, dropped for very slow compartments
+            md["irf"] = {"irf1": dict(IRF_PLAIN, backsweep=True, backsweep_period="irf.bp")}
+            vals["irf.bp"] = 13.0
         md["dataset"]["d1"]["irf"] = "irf1"
 
     def p(items):
@@ -43,6 +46,8 @@ def family(name, perm=None, irf="none", mc_order=None, ds_order=None, d2_perm=No
     if name == "parallel":
         comps = ["s1", "s2", "s3", "s4"][: 3 if perm is None or len(perm) == 3 else 4]
         rates = {"s1": 0.3, "s2": 1.7, "s3": 6.0, "s4": 0.05}
+        if irf == "backsweep":
+            rates["s1"] = 5e-5  # rate x period below the threshold of the backsweep term
         for c in comps:
             vals[f"k.{c}"] = rates[c]
         md["megacomplex"]["m1"] = {"type": "decay-parallel", "compartments": p(comps), "rates": p([f"k.{c}" for c in comps])}
@@ -199,7 +204,8 @@ def compare(base, twin, what):
             scale = max(np.abs(av).max(), 1e-300) if av.size else 1.0
             tol = 1e-12 * scale if str(name) in ("matrix", "species_concentration") or "oscillation_cos" in str(name) or "oscillation_sin" in str(name) else 1e-9 * scale
             if "phase" in str(name):
-                d = np.abs(np.angle(np.exp(1j * (av - bv))))
+                # the unwrapped phase of a label is the same number under every declaration order (not only modulo 2 pi)
+                d = np.abs(av - bv)
                 bad = d.max() > 1e-6 if d.size else False
             else:
                 bad = av.shape != bv.shape or (av.size and np.abs(av - bv).max() > tol)
@@ -277,7 +283,7 @@ CASE_FUNCS = {"permutation": case_permutation, "mc_order": case_mc_order, "ds_or
 def run(run: core.Run):
     quick = run.tier == "quick"
     perms = []
-    for fam, n, irfs in (("parallel", 3, ("none", "plain", "dispersed")), ("parallel", 4, ("none", "dispersed")),
+    for fam, n, irfs in (("parallel", 3, ("none", "plain", "dispersed", "backsweep")), ("parallel", 4, ("none", "dispersed")),
                          ("decay", 3, ("none", "dispersed")), ("decay", 5, ("none",)), ("decay2", 4, ("none", "plain")), ("chain4", 4, ("none", "plain")),
                          ("oscillation", 3, ("none", "plain", "dispersed")), ("oscillation_mixed", 3, ("none", "plain", "dispersed")), ("pfid", 3, ("dispersed",)), ("spectral", 3, ("none",))):  # fmt: skip
         for irf in irfs:
